@@ -324,4 +324,286 @@ theorem resume_reach (p : Prog) (r : Option Exc) (w : W) :
   | tearDown => simpa [rem, hpos] using afterTearDown_reach p r w
   | cleanup => simpa [rem, hpos] using afterCleanup_reach p r w
 
+/-! ## queue, clock and spinner: the invariant of the reactor loop -/
+
+def isSD (c : DCall (QAct CAct)) : Bool :=
+  match c.act with
+  | .user _ (.stageDone _) => true
+  | _ => false
+
+/-- sorted by time, and the timeout call precedes every stage-firing call of the same instant (it was
+scheduled first) -/
+def SortedQ (q : List (DCall (QAct CAct))) : Prop :=
+  q.Pairwise fun a b => a.time ≤ b.time ∧ (isSD a = true → b.act.isTimeout = true → a.time < b.time)
+
+theorem SortedQ.tail {c : DCall (QAct CAct)} {q : List (DCall (QAct CAct))} (h : SortedQ (c :: q)) : SortedQ q :=
+  (List.pairwise_cons.mp h).2
+
+theorem SortedQ.head {c : DCall (QAct CAct)} {q : List (DCall (QAct CAct))} (h : SortedQ (c :: q)) :
+    ∀ x ∈ q, c.time ≤ x.time ∧ (isSD c = true → x.act.isTimeout = true → c.time < x.time) :=
+  (List.pairwise_cons.mp h).1
+
+theorem insert_sortedQ (c : DCall (QAct CAct)) : ∀ q : List (DCall (QAct CAct)), SortedQ q →
+    (c.act.isTimeout = true → ∀ x ∈ q, isSD x = false) → SortedQ (insert c q)
+  | [], _, _ => by simp [Reactor.insert, SortedQ]
+  | d :: ds, h, hc => by
+      simp only [Reactor.insert]
+      split
+      · rename_i hle
+        refine List.pairwise_cons.mpr ⟨?_, insert_sortedQ c ds h.tail (fun ht x hx => hc ht x (List.mem_cons_of_mem _ hx))⟩
+        intro x hx
+        rcases mem_insert.mp hx with rfl | hx
+        · refine ⟨hle, fun hsd ht => ?_⟩
+          have := hc ht d List.mem_cons_self
+          rw [this] at hsd; cases hsd
+        · exact h.head x hx
+      · rename_i hgt
+        refine List.pairwise_cons.mpr ⟨?_, h⟩
+        intro x hx
+        have hlt : c.time < x.time := by
+          rcases List.mem_cons.mp hx with rfl | hx
+          · omega
+          · have := (h.head x hx).1; omega
+        exact ⟨by omega, fun _ _ => hlt⟩
+
+theorem SortedQ.filter {q : List (DCall (QAct CAct))} (f : DCall (QAct CAct) → Bool) (h : SortedQ q) :
+    SortedQ (q.filter f) := List.Pairwise.filter f h
+
+structure Inv1 (p : Prog) (w : W) : Prop where
+  sorted : SortedQ w.calls
+  ge : ∀ c ∈ w.calls, w.now ≤ c.time
+  ttime : ∀ c ∈ w.calls, c.act.isTimeout = true → c.time = p.timeout
+  tcount : (w.calls.filter (·.act.isTimeout)).length = if w.sp.tcall = .pending then 1 else 0
+  pend : w.sp.tcall = .pending → w.sp.success = none ∧ w.sp.failure = none
+  called : w.sp.tcall = .called → p.timeout ≤ w.now ∧ w.sp.failure = some .timeout ∧ w.sp.success = none
+            ∧ ∀ s ∈ p.stops, p.timeout ≤ s
+  cancelled : w.sp.tcall = .cancelled → w.sp.success.isSome = true ∧ w.sp.failure = none
+  nounset : w.sp.tcall ≠ .unset
+  alive : w.crashed = false → w.sp.tcall = .pending ∧ w.sp.spinning = true
+  stops : ∀ s ∈ p.stops, (⟨s, .user 0 .stop⟩ : DCall (QAct CAct)) ∈ w.calls ∨ (w.crashed = true ∧ s = w.now)
+  stopcalls : ∀ c ∈ w.calls, ∀ l, c.act = .user l .stop → c.time ∈ p.stops
+  cause : w.crashed = true → w.sp.tcall = .called ∨ w.sp.success.isSome = true ∨ ∃ s ∈ p.stops, s = w.now
+
+theorem inv1_upd {p : Prog} {w : W} (f : Chain → Chain) (h : Inv1 p w) : Inv1 p (updU f w) :=
+  ⟨h.sorted, h.ge, h.ttime, h.tcount, h.pend, h.called, h.cancelled, h.nounset, h.alive, h.stops, h.stopcalls, h.cause⟩
+
+theorem filter_insert_length (f : DCall (QAct CAct) → Bool) (c : DCall (QAct CAct)) (q : List (DCall (QAct CAct))) :
+    ((insert c q).filter f).length = ((c :: q).filter f).length :=
+  ((insert_perm c q).filter f).length_eq
+
+theorem inv1_sched {p : Prog} {w : W} (d : Nat) (a : CAct) (ha : a ≠ .stop) (h : Inv1 p w) :
+    Inv1 p (schedule (w.now + d) (.user 0 a) w) := by
+  refine ⟨?_, ?_, ?_, ?_, h.pend, h.called, h.cancelled, h.nounset, h.alive, ?_, ?_, h.cause⟩
+  · exact insert_sortedQ _ _ h.sorted (fun ht => by cases ht)
+  · intro c hc
+    rcases mem_insert.mp hc with rfl | hc
+    · show w.now ≤ w.now + d; omega
+    · exact h.ge c hc
+  · intro c hc ht
+    rcases mem_insert.mp hc with rfl | hc
+    · cases ht
+    · exact h.ttime c hc ht
+  · show ((Reactor.insert ⟨w.now + d, .user 0 a⟩ w.calls).filter (·.act.isTimeout)).length = _
+    rw [filter_insert_length, List.filter_cons_of_neg (by simp [QAct.isTimeout])]
+    exact h.tcount
+  · intro s hs
+    rcases h.stops s hs with h1 | h1
+    · exact Or.inl (mem_insert.mpr (Or.inr h1))
+    · exact Or.inr h1
+  · intro c hc l hcl
+    rcases mem_insert.mp hc with rfl | hc
+    · simp only [QAct.user.injEq] at hcl
+      exact absurd hcl.2 ha
+    · exact h.stopcalls c hc l hcl
+
+theorem filter_timeout_nil (q : List (DCall (QAct CAct))) :
+    ((q.filter fun c => !c.act.isTimeout).filter (·.act.isTimeout)) = [] := by
+  rw [List.filter_filter]
+  apply List.filter_eq_nil_iff.mpr
+  intro c _
+  cases c.act.isTimeout <;> simp
+
+theorem inv1_deliver {p : Prog} {w : W} (b : Nat) (h : Inv1 p w) : Inv1 p (deliver (.value b) w) := by
+  by_cases hp : w.sp.tcall = .pending
+  · have hcr : (deliver (.value b) w).crashed = true := by
+      unfold deliver
+      simp only [hp, stopReactor_crashed]
+      cases hw : w.crashed with
+      | true => simp
+      | false => simp [(h.alive hw).2]
+    have htc : (deliver (.value b) w).sp.tcall = .cancelled := by unfold deliver; simp [hp]
+    have hsucc : (deliver (.value b) w).sp.success = some b := by unfold deliver; simp [hp]
+    have hfail : (deliver (.value b) w).sp.failure = none := by unfold deliver; simp [hp, (h.pend hp).2]
+    have hcalls : (deliver (.value b) w).calls = w.calls.filter (fun c => !c.act.isTimeout) := by
+      rw [deliver_calls]; simp [hp]
+    refine ⟨?_, ?_, ?_, ?_, ?_, ?_, ?_, ?_, ?_, ?_, ?_, ?_⟩
+    · rw [hcalls]; exact h.sorted.filter _
+    · intro c hc; rw [hcalls] at hc; simpa using h.ge c (List.mem_filter.mp hc).1
+    · intro c hc; rw [hcalls] at hc; exact h.ttime c (List.mem_filter.mp hc).1
+    · rw [hcalls, htc, filter_timeout_nil]; simp
+    · intro ht; rw [htc] at ht; cases ht
+    · intro ht; rw [htc] at ht; cases ht
+    · intro _; exact ⟨by rw [hsucc]; rfl, hfail⟩
+    · rw [htc]; simp
+    · intro hc; rw [hcr] at hc; cases hc
+    · intro s hs
+      rcases h.stops s hs with h1 | h1
+      · left; rw [hcalls]; exact List.mem_filter.mpr ⟨h1, rfl⟩
+      · right; exact ⟨hcr, by simpa using h1.2⟩
+    · intro c hc l hcl; rw [hcalls] at hc; exact h.stopcalls c (List.mem_filter.mp hc).1 l hcl
+    · intro _; right; left; rw [hsucc]; rfl
+  · rw [deliver_of_not_pending _ _ hp]
+    have hcr : w.crashed = true := by
+      cases hw : w.crashed with
+      | true => rfl
+      | false => exact absurd (h.alive hw).1 hp
+    refine ⟨by simpa using h.sorted, by simpa using h.ge, by simpa using h.ttime, by simpa using h.tcount,
+      by simpa using h.pend, by simpa using h.called, by simpa using h.cancelled, by simpa using h.nounset, ?_, ?_,
+      by simpa using h.stopcalls, ?_⟩
+    · intro hc; rw [stopReactor_crashed, hcr] at hc; simp at hc
+    · intro s hs
+      rcases h.stops s hs with h1 | h1
+      · exact Or.inl (by simpa using h1)
+      · exact Or.inr ⟨by simp [stopReactor_crashed, hcr], by simpa using h1.2⟩
+    · intro _; simpa using h.cause hcr
+
+theorem inv1_reach {p : Prog} {k : Nat} {w w' : W} (hr : Reach k w w') (h : Inv1 p w) : Inv1 p w' :=
+  Reach.inv (Inv1 p) (fun _ f h => inv1_upd f h) (fun _ d a ha h => inv1_sched d a ha h)
+    (fun _ b h => inv1_deliver b h) hr h
+
+/-- popping the head keeps the queue part of the invariant -/
+theorem inv1_pop_frame {p : Prog} {w : W} (h : Inv1 p w) (c : DCall (QAct CAct)) (rest : List (DCall (QAct CAct)))
+    (hc : w.calls = c :: rest) :
+    SortedQ rest ∧ (∀ x ∈ rest, w.now ≤ x.time) ∧ (∀ x ∈ rest, x.act.isTimeout = true → x.time = p.timeout) ∧
+    (∀ x ∈ rest, ∀ l, x.act = .user l .stop → x.time ∈ p.stops) := by
+  have hs := h.sorted; rw [hc] at hs
+  refine ⟨hs.tail, fun x hx => h.ge x (by rw [hc]; exact List.mem_cons_of_mem _ hx),
+    fun x hx => h.ttime x (by rw [hc]; exact List.mem_cons_of_mem _ hx),
+    fun x hx => h.stopcalls x (by rw [hc]; exact List.mem_cons_of_mem _ hx)⟩
+
+theorem inv1_pop {p : Prog} {w : W} (h : Inv1 p w) (c : DCall (QAct CAct)) (rest : List (DCall (QAct CAct)))
+    (hc : w.calls = c :: rest) (hdue : c.time ≤ w.now) : Inv1 p (execCall (exec p) c { w with calls := rest }) := by
+  obtain ⟨hsr, hger, httr, hscr⟩ := inv1_pop_frame h c rest hc
+  have hnow : c.time = w.now := by
+    have := h.ge c (by rw [hc]; exact List.mem_cons_self); omega
+  have htc := h.tcount
+  rw [hc] at htc
+  rcases c with ⟨t, q⟩
+  cases q with
+  | timeout =>
+    -- the timeout call: `_timed_out`
+    rw [List.filter_cons_of_pos (by rfl)] at htc
+    simp only [List.length_cons] at htc
+    have hpend : w.sp.tcall = .pending := by
+      by_cases hp : w.sp.tcall = .pending
+      · exact hp
+      · simp [hp] at htc
+    have hrest0 : (rest.filter (·.act.isTimeout)).length = 0 := by rw [hpend] at htc; simpa using htc
+    have ht0 : t = p.timeout := h.ttime ⟨t, .timeout⟩ (by rw [hc]; exact List.mem_cons_self) rfl
+    have hs := h.sorted; rw [hc] at hs
+    have hcr : (execCall (exec p) ⟨t, .timeout⟩ { w with calls := rest }).crashed = true := by
+      simp only [execCall, execTimeout, stopReactor_crashed, logEvent_crashed]
+      cases hw : w.crashed with
+      | true => simp
+      | false => simp [logEvent, (h.alive hw).2]
+    refine ⟨by simpa [execCall] using hsr, by simpa [execCall] using hger, by simpa [execCall] using httr, ?_,
+      by simp [execCall], ?_, by simp [execCall], by simp [execCall], ?_, ?_, by simpa [execCall] using hscr, ?_⟩
+    · simp only [execCall, execTimeout_calls, execTimeout_tcall]
+      simpa using hrest0
+    · intro _
+      simp only [execCall, execTimeout_now, execTimeout_failure, execTimeout_success]
+      refine ⟨by simp at hnow; omega, by simp, (h.pend hpend).1, ?_⟩
+      intro s hs'
+      rcases h.stops s hs' with h1 | h1
+      · rw [hc] at h1
+        rcases List.mem_cons.mp h1 with h1 | h1
+        · cases h1
+        · have := (hs.head _ h1).1; simp at this; omega
+      · simp at hnow; omega
+    · intro hcr'; rw [hcr] at hcr'; cases hcr'
+    · intro s hs'
+      rcases h.stops s hs' with h1 | h1
+      · rw [hc] at h1
+        rcases List.mem_cons.mp h1 with h1 | h1
+        · cases h1
+        · left; simpa [execCall] using h1
+      · right; exact ⟨hcr, by simpa [execCall] using h1.2⟩
+    · intro _; left; simp [execCall]
+  | user l a =>
+    rw [List.filter_cons_of_neg (by simp [QAct.isTimeout])] at htc
+    -- the state after the pop, before the action runs (for an action that is not a stop request)
+    have hbase : a ≠ .stop → Inv1 p (logEvent (.user l) { w with calls := rest }) := by
+      intro ha
+      refine ⟨hsr, hger, httr, htc, h.pend, h.called, h.cancelled, h.nounset, h.alive, ?_, hscr, h.cause⟩
+      intro s hs'
+      rcases h.stops s hs' with h1 | h1
+      · rw [hc] at h1
+        rcases List.mem_cons.mp h1 with h1 | h1
+        · injection h1 with _ h1a
+          injection h1a with _ h1a
+          exact absurd h1a.symm ha
+        · exact Or.inl h1
+      · exact Or.inr h1
+    cases a with
+    | noop => exact hbase (by simp)
+    | stageDone r =>
+      obtain ⟨k, hk, _⟩ := resume_reach p r (logEvent (.user l) { w with calls := rest })
+      exact inv1_reach hk (hbase (by simp))
+    | stop =>
+      have htin : t ∈ p.stops := h.stopcalls ⟨t, .user l .stop⟩ (by rw [hc]; exact List.mem_cons_self) l rfl
+      have hcr : (execCall (exec p) ⟨t, .user l .stop⟩ { w with calls := rest }).crashed = true := by
+        simp only [execCall, exec]; split <;> rfl
+      have hfr : (execCall (exec p) ⟨t, .user l .stop⟩ { w with calls := rest }).calls = rest ∧
+          (execCall (exec p) ⟨t, .user l .stop⟩ { w with calls := rest }).now = w.now ∧
+          (execCall (exec p) ⟨t, .user l .stop⟩ { w with calls := rest }).sp = w.sp := by
+        simp only [execCall, exec]; split <;> exact ⟨rfl, rfl, rfl⟩
+      obtain ⟨e1, e2, e3⟩ := hfr
+      refine ⟨by rw [e1]; exact hsr, by rw [e1, e2]; exact hger, by rw [e1]; exact httr, by rw [e1, e3]; exact htc,
+        by rw [e3]; exact h.pend, by rw [e3, e2]; exact h.called, by rw [e3]; exact h.cancelled, by rw [e3]; exact h.nounset,
+        ?_, ?_, by rw [e1]; exact hscr, ?_⟩
+      · intro hcr'; rw [hcr] at hcr'; cases hcr'
+      · intro s hs'
+        rw [e1, e2]
+        rcases h.stops s hs' with h1 | h1
+        · rw [hc] at h1
+          rcases List.mem_cons.mp h1 with h1 | h1
+          · right
+            injection h1 with h1t _
+            exact ⟨hcr, by simp at hnow; omega⟩
+          · exact Or.inl h1
+        · exact Or.inr ⟨hcr, h1.2⟩
+      · intro _
+        right; right
+        exact ⟨t, htin, by rw [e2]; simpa using hnow⟩
+
+theorem inv1_adv {p : Prog} {w : W} (h : Inv1 p w) (c : DCall (QAct CAct)) (rest : List (DCall (QAct CAct)))
+    (hc : w.calls = c :: rest) (hcr : w.crashed = false) : Inv1 p { w with now := max w.now c.time } := by
+  have hs := h.sorted; rw [hc] at hs
+  have hge := h.ge c (by rw [hc]; exact List.mem_cons_self)
+  have hmax : max w.now c.time = c.time := by omega
+  refine ⟨h.sorted, ?_, h.ttime, h.tcount, h.pend, ?_, h.cancelled, h.nounset, h.alive, ?_, h.stopcalls, ?_⟩
+  · intro x hx
+    show max w.now c.time ≤ x.time
+    rw [hmax]
+    rw [hc] at hx
+    rcases List.mem_cons.mp hx with rfl | hx
+    · exact Nat.le_refl _
+    · exact (hs.head x hx).1
+  · intro ht
+    have := (h.alive hcr).1
+    rw [this] at ht; cases ht
+  · intro s hs'
+    rcases h.stops s hs' with h1 | h1
+    · exact Or.inl h1
+    · rw [hcr] at h1; cases h1.1
+  · intro hcr'
+    rw [hcr] at hcr'; cases hcr'
+
+theorem inv1_drain {p : Prog} (n : Nat) (w : W) (h : Inv1 p w) : Inv1 p (drain (exec p) n w) :=
+  drain_inv (exec p) (Inv1 p) (fun _ c rest h hc hd => inv1_pop h c rest hc hd) n w h
+
+theorem inv1_spin {p : Prog} (f : W → Nat) (n : Nat) (w : W) (h : Inv1 p w) : Inv1 p (spin (exec p) f n w) :=
+  spin_inv (exec p) f (Inv1 p) (fun _ c rest h hc hd => inv1_pop h c rest hc hd)
+    (fun _ c rest h hc hcr => inv1_adv h c rest hc hcr) n w h
+
 end TTV.Props.C14
